@@ -423,6 +423,27 @@ void cmb_timeseries_sort_t(struct cmb_timeseries *tsp)
     cmb_assert_debug(cmi_dataset_is_sorted(dsp->count, tsp->ta));
 }
 
+/* The q-quantile of sorted values xa[0..un-1] with cumulative weights wcum: the first value at
+ * which the cumulative weight exceeds q * wsum; if it is reached exactly, the midpoint to the
+ * next value. */
+static double timeseries_quantile(const uint64_t un, const double *xa, const double *wcum,
+                                  const double wsum, const double q)
+{
+    if (!(wsum > 0.0)) {
+        return xa[un / 2u];
+    }
+    const double wq = q * wsum;
+    for (uint64_t ui = 0u; ui < un; ui++) {
+        if (wcum[ui] > wq) {
+            return xa[ui];
+        }
+        if ((wcum[ui] == wq) && (ui + 1u < un)) {
+            return xa[ui] + 0.5 * (xa[ui + 1u] - xa[ui]);
+        }
+    }
+    return xa[un - 1u];
+}
+
 /*
  * Takes a copy before sorting, leaving tsp unchanged.
  */
@@ -447,17 +468,7 @@ double cmb_timeseries_median(const struct cmb_timeseries *tsp)
         wcum[ui] = wsum;
     }
 
-    const double wmid = 0.5 * wsum;
-    double r = 0.0;
-     for (uint64_t ui = 0u; ui < un - 1; ui++) {
-        if ((wcum[ui] <= wmid) && (wcum[ui + 1] > wmid)) {
-            cmb_assert_debug(wcum[ui + 1] > wcum[ui]);
-            r = dsp->xa[ui] + (dsp->xa[ui + 1]
-                            - dsp->xa[ui]) * (wmid - wcum[ui])
-                               / (wcum[ui + 1] - wcum[ui]);
-            break;
-        }
-    }
+    const double r = timeseries_quantile(un, dsp->xa, wcum, wsum, 0.5);
 
     cmi_free(wcum);
     cmb_timeseries_reset(&tmp_ts);
@@ -490,35 +501,9 @@ void cmb_timeseries_fivenum_print(const struct cmb_timeseries *tsp,
         wcum[ui] = wsum;
     }
 
-    const double w025 = 0.25 * wsum;
-    const double w050 = 0.50 * wsum;
-    const double w075 = 0.75 * wsum;
-
-    double x025 = 0.0;
-    double x050 = 0.0;
-    double x075 = 0.0;
-    for (uint64_t ui = 0u; ui < un - 1; ui++) {
-        if ((wcum[ui] <= w025) && (wcum[ui + 1] > w025)) {
-            cmb_assert_debug(wcum[ui + 1] > wcum[ui]);
-            x025 = dsp->xa[ui] + (dsp->xa[ui + 1]
-                               - dsp->xa[ui]) * (w025 - wcum[ui])
-                                  / (wcum[ui + 1] - wcum[ui]);
-        }
-
-        if ((wcum[ui] <= w050) && (wcum[ui + 1] > w050)) {
-            cmb_assert_debug(wcum[ui + 1] > wcum[ui]);
-            x050 = dsp->xa[ui] + (dsp->xa[ui + 1]
-                               - dsp->xa[ui]) * (w050 - wcum[ui])
-                                  / (wcum[ui + 1] - wcum[ui]);
-        }
-
-        if ((wcum[ui] <= w075) && (wcum[ui + 1] > w075)) {
-            cmb_assert_debug(wcum[ui + 1] > wcum[ui]);
-            x075 = dsp->xa[ui] + (dsp->xa[ui + 1]
-                               - dsp->xa[ui]) * (w075 - wcum[ui])
-                                  / (wcum[ui + 1] - wcum[ui]);
-        }
-    }
+    const double x025 = timeseries_quantile(un, dsp->xa, wcum, wsum, 0.25);
+    const double x050 = timeseries_quantile(un, dsp->xa, wcum, wsum, 0.50);
+    const double x075 = timeseries_quantile(un, dsp->xa, wcum, wsum, 0.75);
 
     cmb_assert_debug((xmin <= x025) && (x025 <= x050)
                   && (x050 <= x075) && (x075 <= xmax));
